@@ -301,7 +301,7 @@ def gen_cases(ctx, quick):
 
 
 def build(ctx):
-    binary, log = ctx.build_harness("c07_proj.cpp", name=sp.harness_name("c07_proj"), extra=sp.header_flag())
+    binary, log = ctx.build_harness("c07_proj.cpp", name=sp.harness_name("c07_proj"), flags=sp.FLAGS, extra=sp.header_flag())
     if not binary:
         ctx.broken("harness-build", "harness c07_proj.cpp", "harness does not compile against /repo: " + log[-800:])
     return binary
@@ -342,6 +342,8 @@ def correspond(ctx):
                        "object vs the generated table; d > D probes; non-trivial = N >= 4; distinct by case text"
                        % (32 if quick else 64))
     ctx.assumptions += [
+        "harness compiled at -O0 -g1 (ASan+UBSan on) instead of -O1 -g: the all-methods translation unit needs 2-3 min and "
+        "several GB otherwise",
         "IEEE rounding: projection(x_i) and the embedding row are demanded bitwise equal (counted; approx fallback 2^-40 "
         "counted separately); model-vs-implementation values of P^T(x-mean) within 2^-40 of the largest product magnitude",
         "a throw / NaN eigenvector matrix of NPE, LLTSA, LPP on degenerate neighbourhood data is skipped here (counted): "
